@@ -11,7 +11,13 @@ fn canon(v: &Value) -> String {
         Value::Object(m) => {
             let mut keys: Vec<&String> = m.keys().collect();
             keys.sort();
-            format!("{{{}}}", keys.iter().map(|k| format!("{:?}:{}", k, canon(&m[*k]))).collect::<Vec<_>>().join(","))
+            format!(
+                "{{{}}}",
+                keys.iter()
+                    .map(|k| format!("{:?}:{}", k, canon(&m[*k])))
+                    .collect::<Vec<_>>()
+                    .join(",")
+            )
         }
         Value::Array(a) => format!("[{}]", a.iter().map(canon).collect::<Vec<_>>().join(",")),
         other => other.to_string(),
@@ -110,7 +116,10 @@ fn check_query(query: &Value, st: &mut Stats, nontrivial: bool) {
     let case = || json!({"query": query});
     // the plugin refuses a section whose text mentions "grid_search" (its error message says so): for those sections a
     // refusal is accepted, an expansion is accepted only if no generated query keeps a grid section
-    let mentions = query.get("grid_search").map(|g| g.to_string().contains("grid_search")).unwrap_or(false);
+    let mentions = query
+        .get("grid_search")
+        .map(|g| g.to_string().contains("grid_search"))
+        .unwrap_or(false);
     for route in ["plugin.process", "apply_input_plugins"] {
         st.evaluations += 1;
         st.transitions += 1;
@@ -118,7 +127,9 @@ fn check_query(query: &Value, st: &mut Stats, nontrivial: bool) {
         let got: Result<Result<Vec<Value>, String>, String> = guarded(|| {
             if route == "plugin.process" {
                 let mut q = query.clone();
-                GridSearchPlugin {}.process(&mut q).map_err(|e| e.to_string())?;
+                GridSearchPlugin {}
+                    .process(&mut q)
+                    .map_err(|e| e.to_string())?;
                 Ok(match q {
                     Value::Array(a) => a,
                     other => vec![other],
@@ -135,43 +146,90 @@ fn check_query(query: &Value, st: &mut Stats, nontrivial: bool) {
             Ok(Err(e)) => st.violation(&comp, "expands_without_error", size, || e.clone(), case),
             Ok(Ok(list)) if mentions => {
                 // accepted although the section mentions its own name: the expansion must still leave no grid section behind
-                let product: usize = query["grid_search"].as_object().map(|m| m.values().filter_map(|v| v.as_array()).map(|a| a.len()).product()).unwrap_or(1);
+                let product: usize = query["grid_search"]
+                    .as_object()
+                    .map(|m| {
+                        m.values()
+                            .filter_map(|v| v.as_array())
+                            .map(|a| a.len())
+                            .product()
+                    })
+                    .unwrap_or(1);
                 if list.len() == product {
                     st.pass("count_is_product_of_sizes");
                 } else {
-                    st.violation(&comp, "count_is_product_of_sizes", size, || format!("{} queries, expected {}", list.len(), product), case);
+                    st.violation(
+                        &comp,
+                        "count_is_product_of_sizes",
+                        size,
+                        || format!("{} queries, expected {}", list.len(), product),
+                        case,
+                    );
                 }
                 if list.iter().all(|q| q.get("grid_search").is_none()) {
                     st.pass("no_grid_section_left");
                 } else {
-                    st.violation(&comp, "no_grid_section_left", size, || "a generated query still has a grid_search key".to_string(), case);
+                    st.violation(
+                        &comp,
+                        "no_grid_section_left",
+                        size,
+                        || "a generated query still has a grid_search key".to_string(),
+                        case,
+                    );
                 }
             }
             Ok(Ok(list)) => {
                 if list.len() == want.len() {
                     st.pass("count_is_product_of_sizes");
                 } else {
-                    st.violation(&comp, "count_is_product_of_sizes", size, || format!("{} queries, expected {}", list.len(), want.len()), case);
+                    st.violation(
+                        &comp,
+                        "count_is_product_of_sizes",
+                        size,
+                        || format!("{} queries, expected {}", list.len(), want.len()),
+                        case,
+                    );
                 }
                 let mut got_c: Vec<String> = list.iter().map(canon).collect();
                 got_c.sort();
                 if got_c == want_c {
                     st.pass("multiset_equals_cartesian_product");
                 } else {
-                    let missing: Vec<&String> = want_c.iter().filter(|w| !got_c.contains(w)).take(2).collect();
-                    let extra: Vec<&String> = got_c.iter().filter(|g| !want_c.contains(g)).take(2).collect();
-                    st.violation(&comp, "multiset_equals_cartesian_product", size, || format!("missing {:?} unexpected {:?}", missing, extra), case);
+                    let missing: Vec<&String> = want_c
+                        .iter()
+                        .filter(|w| !got_c.contains(w))
+                        .take(2)
+                        .collect();
+                    let extra: Vec<&String> = got_c
+                        .iter()
+                        .filter(|g| !want_c.contains(g))
+                        .take(2)
+                        .collect();
+                    st.violation(
+                        &comp,
+                        "multiset_equals_cartesian_product",
+                        size,
+                        || format!("missing {:?} unexpected {:?}", missing, extra),
+                        case,
+                    );
                 }
-                if list.iter().all(|q| q.get("grid_search").is_none()) || query.get("grid_search").is_none() {
+                if list.iter().all(|q| q.get("grid_search").is_none())
+                    || query.get("grid_search").is_none()
+                {
                     st.pass("no_grid_section_left");
                 } else {
-                    st.violation(&comp, "no_grid_section_left", size, || "a generated query still has a grid_search key".to_string(), case);
+                    st.violation(
+                        &comp,
+                        "no_grid_section_left",
+                        size,
+                        || "a generated query still has a grid_search key".to_string(),
+                        case,
+                    );
                 }
             }
         }
     }
 }
-
 
 /// options that are, contain or mention a grid section: exact key at the top of an option, deeper inside it, inside an
 /// array, as a string value, as part of a key
@@ -198,7 +256,17 @@ fn mention_queries() -> Vec<Value> {
             for pos in 0..size {
                 for others in [0usize, 1] {
                     // others: ordinary scalars / ordinary objects around the special option
-                    let opts: Vec<Value> = (0..size).map(|i| if i == pos { special.clone() } else if others == 0 { json!(i) } else { json!({"name": format!("plain{}", i)}) }).collect();
+                    let opts: Vec<Value> = (0..size)
+                        .map(|i| {
+                            if i == pos {
+                                special.clone()
+                            } else if others == 0 {
+                                json!(i)
+                            } else {
+                                json!({"name": format!("plain{}", i)})
+                            }
+                        })
+                        .collect();
                     for second in [None, Some(json!([1, 2])), Some(json!([{"k": 1}, {"k": 2}]))] {
                         for first in [true, false] {
                             let mut gs = Map::new();
@@ -226,7 +294,10 @@ fn mention_queries() -> Vec<Value> {
 /// grid section and some do not, so the working list of the plugin chain holds expanded and unexpanded queries side by side
 struct FanOut {}
 impl InputPlugin for FanOut {
-    fn process(&self, input: &mut Value) -> Result<(), routee_compass::plugin::input::InputPluginError> {
+    fn process(
+        &self,
+        input: &mut Value,
+    ) -> Result<(), routee_compass::plugin::input::InputPluginError> {
         if let Some(list) = input.get("fan_out").cloned() {
             *input = list;
         }
@@ -247,8 +318,18 @@ fn fan_out_members() -> Vec<Value> {
 /// always skipped them; the array-valued fields around them must still be expanded under their own names. Every position of
 /// one or two such members among one to three array-valued fields
 fn stray_member_queries() -> Vec<Value> {
-    let strays: Vec<(&str, Value)> = vec![("comment", json!("sweep")), ("enabled", json!(true)), ("count", json!(3)), ("meta", json!({"by": "me"})), ("nothing", Value::Null)];
-    let fields: Vec<(&str, Value)> = vec![("alpha", json!(["a", "b"])), ("beta", json!([1, 2, 3])), ("gamma", json!([{"m2": "x"}, "y"]))];
+    let strays: Vec<(&str, Value)> = vec![
+        ("comment", json!("sweep")),
+        ("enabled", json!(true)),
+        ("count", json!(3)),
+        ("meta", json!({"by": "me"})),
+        ("nothing", Value::Null),
+    ];
+    let fields: Vec<(&str, Value)> = vec![
+        ("alpha", json!(["a", "b"])),
+        ("beta", json!([1, 2, 3])),
+        ("gamma", json!([{"m2": "x"}, "y"])),
+    ];
     let mut out = vec![];
     for nf in 1..=3usize {
         for (si, s1) in strays.iter().enumerate() {
@@ -294,7 +375,8 @@ fn check_fan_out(st: &mut Stats) -> u64 {
             }
         }
     }
-    let plugins: Vec<Arc<dyn InputPlugin>> = vec![Arc::new(FanOut {}), Arc::new(GridSearchPlugin {})];
+    let plugins: Vec<Arc<dyn InputPlugin>> =
+        vec![Arc::new(FanOut {}), Arc::new(GridSearchPlugin {})];
     for l in lists.iter() {
         st.states += 1;
         st.evaluations += 1;
@@ -311,20 +393,43 @@ fn check_fan_out(st: &mut Stats) -> u64 {
             })
             .collect();
         let query = json!({"fan_out": list});
-        let mut want_c: Vec<String> = list.iter().flat_map(|q| reference(q)).map(|q| canon(&q)).collect();
+        let mut want_c: Vec<String> = list
+            .iter()
+            .flat_map(|q| reference(q))
+            .map(|q| canon(&q))
+            .collect();
         want_c.sort();
         let case = || json!({"fan_out_query": query});
         let comp = "grid_search.behind_a_fan_out_plugin";
         match guarded(|| apply_input_plugins(&query, &plugins).map_err(|e| e.to_string())) {
             Err(p) => st.violation(comp, "no_panic", l.len() as u64, || p.clone(), case),
-            Ok(Err(e)) => st.violation(comp, "expands_without_error", l.len() as u64, || e.clone(), case),
+            Ok(Err(e)) => st.violation(
+                comp,
+                "expands_without_error",
+                l.len() as u64,
+                || e.clone(),
+                case,
+            ),
             Ok(Ok(got)) => {
                 let mut got_c: Vec<String> = got.iter().map(canon).collect();
                 got_c.sort();
                 if got_c == want_c {
                     st.pass("multiset_equals_cartesian_product");
                 } else {
-                    st.violation(comp, "multiset_equals_cartesian_product", l.len() as u64, || format!("{} queries, expected {}: got {:?}", got_c.len(), want_c.len(), got_c.iter().take(4).collect::<Vec<_>>()), case);
+                    st.violation(
+                        comp,
+                        "multiset_equals_cartesian_product",
+                        l.len() as u64,
+                        || {
+                            format!(
+                                "{} queries, expected {}: got {:?}",
+                                got_c.len(),
+                                want_c.len(),
+                                got_c.iter().take(4).collect::<Vec<_>>()
+                            )
+                        },
+                        case,
+                    );
                 }
             }
         }
@@ -356,7 +461,13 @@ fn check_case(tier: Tier, m: usize, code: usize, st: &mut Stats) {
     let sizes = sizes(tier);
     let extras_sets: Vec<Map<String, Value>> = vec![
         Map::new(),
-        [("origin_vertex".to_string(), json!(0)), ("tag".to_string(), json!({"keep": ["me", 1]})), ("extra2".to_string(), json!([2]))].into_iter().collect(),
+        [
+            ("origin_vertex".to_string(), json!(0)),
+            ("tag".to_string(), json!({"keep": ["me", 1]})),
+            ("extra2".to_string(), json!([2])),
+        ]
+        .into_iter()
+        .collect(),
     ];
     let mut c = code;
     let mut fs = vec![];
@@ -396,7 +507,11 @@ fn check_case(tier: Tier, m: usize, code: usize, st: &mut Stats) {
 }
 
 pub fn worker(args: &[String]) -> i32 {
-    let tier = if args.first().map(|s| s.as_str()) == Some("thorough") { Tier::Thorough } else { Tier::Quick };
+    let tier = if args.first().map(|s| s.as_str()) == Some("thorough") {
+        Tier::Thorough
+    } else {
+        Tier::Quick
+    };
     let cs = cases(tier);
     crate::engine::sandbox::worker_loop(|i, st| {
         let (m, code) = cs[i as usize];
@@ -427,10 +542,20 @@ pub fn run(tier: Tier) -> i32 {
     };
     for (i, fate) in fates.iter() {
         let (m, code) = cs[*i as usize];
-        st.violation("grid_search.expansion", "returns_in_bounded_time", (m * 100000 + code) as u64, || format!("grid section with {} fields (code {}): {:?}", m, code, fate), || json!({"fields": m, "code": code, "tier": tier.as_str()}));
+        st.violation(
+            "grid_search.expansion",
+            "returns_in_bounded_time",
+            (m * 100000 + code) as u64,
+            || format!("grid section with {} fields (code {}): {:?}", m, code, fate),
+            || json!({"fields": m, "code": code, "tier": tier.as_str()}),
+        );
     }
     // pass-through: queries without a grid section are unchanged
-    for q in [json!({}), json!({"origin_vertex": 0, "destination_vertex": 3}), json!({"a": [1, 2, 3], "b": {"c": []}})] {
+    for q in [
+        json!({}),
+        json!({"origin_vertex": 0, "destination_vertex": 3}),
+        json!({"a": [1, 2, 3], "b": {"c": []}}),
+    ] {
         check_query(&q, &mut st, false);
     }
     // options that carry or mention the section's own name, at every position among ordinary options
@@ -439,7 +564,10 @@ pub fn run(tier: Tier) -> i32 {
         mention_cases += 1;
         check_query(&q, &mut st, true);
     }
-    st.notes.insert(format!("{} queries whose grid options carry or mention the name of the grid section", mention_cases));
+    st.notes.insert(format!(
+        "{} queries whose grid options carry or mention the name of the grid section",
+        mention_cases
+    ));
     let mut stray_cases = 0u64;
     for q in stray_member_queries() {
         stray_cases += 1;
@@ -465,7 +593,11 @@ pub fn replay(case: &Value) -> i32 {
         // a case that did not come back: run it again under a deadline (the runaway thread ends with the process)
         let m = case["fields"].as_u64().unwrap_or(1) as usize;
         let code = case["code"].as_u64().unwrap_or(0) as usize;
-        let tier = if case["tier"].as_str() == Some("thorough") { Tier::Thorough } else { Tier::Quick };
+        let tier = if case["tier"].as_str() == Some("thorough") {
+            Tier::Thorough
+        } else {
+            Tier::Quick
+        };
         return match crate::engine::with_deadline(10, move || {
             let mut st = Stats::new();
             check_case(tier, m, code, &mut st);
@@ -475,7 +607,11 @@ pub fn replay(case: &Value) -> i32 {
                 for (k, g) in st.violations.iter() {
                     println!("REPLAY-VIOLATION {} {}", k, g.detail);
                 }
-                println!("replay: {} violated clauses over {} expansions", st.violations.len(), st.evaluations);
+                println!(
+                    "replay: {} violated clauses over {} expansions",
+                    st.violations.len(),
+                    st.evaluations
+                );
                 if st.violations.is_empty() {
                     0
                 } else {
@@ -494,15 +630,25 @@ pub fn replay(case: &Value) -> i32 {
         for (k, g) in st.violations.iter() {
             println!("REPLAY-VIOLATION {} {}", k, g.detail);
         }
-        println!("replay: all lists behind the fan-out plugin re-run, {} violated clauses", st.violations.len());
+        println!(
+            "replay: all lists behind the fan-out plugin re-run, {} violated clauses",
+            st.violations.len()
+        );
         return if st.violations.is_empty() { 0 } else { 1 };
     }
     let q = case["query"].clone();
     let mut st = Stats::new();
     check_query(&q, &mut st, true);
-    println!("reference expansion: {}", serde_json::to_string(&reference(&q)).unwrap_or_default());
+    println!(
+        "reference expansion: {}",
+        serde_json::to_string(&reference(&q)).unwrap_or_default()
+    );
     for (k, g) in st.violations.iter() {
         println!("REPLAY-VIOLATION {} {}", k, g.detail);
     }
-    if st.violations.is_empty() { 0 } else { 1 }
+    if st.violations.is_empty() {
+        0
+    } else {
+        1
+    }
 }
